@@ -207,7 +207,7 @@ def big_prism(rng):
 
 def rand_polyhedron(rng, small=False):
     r = rng.random()
-    if not small and rng.random() < 0.06:
+    if rng.random() < (0.03 if small else 0.06):
         d = big_prism(rng)
         if d is not None:
             return d
